@@ -11,6 +11,7 @@ package actionlint
 
 import (
 	"fmt"
+	"os"
 	"strings"
 	"testing"
 )
@@ -386,6 +387,60 @@ func TestVerifC03(t *testing.T) {
 		}
 	}
 	r.Extra["distinct_schema_paths"] = len(pathsSeen)
+	// the repository's own clean workflows (shapes nobody chose for this purpose): every locatable
+	// scalar value replaced by a malformed placeholder is reported at that scalar
+	repo := os.Getenv("VERIF_REPO")
+	if repo == "" {
+		repo = "/repo"
+	}
+	corpus := vCorpusCatalogues(repo, true)
+	r.Bounds["corpus_workflows"] = len(corpus)
+	if len(corpus) < 40 {
+		r.HarnessError("corpus of workflows too small: %d", len(corpus))
+	}
+	text := c03Quote(c03Payloads[0].text)
+	baseDiags := map[string]map[string]bool{}
+	for _, c := range corpus {
+		for _, p := range c.Scalars {
+			idx++
+			if !r.Mine(idx) {
+				continue
+			}
+			if idx%512 == 0 && r.Expired() {
+				return
+			}
+			base, ok := baseDiags[c.Seed]
+			if !ok {
+				base = map[string]bool{}
+				for _, d := range vDiags(vLint(c.Src, nil).Errs) {
+					base[fmt.Sprintf("%d:%d:%s", d.Line, d.Col, d.Msg)] = true
+				}
+				baseDiags[c.Seed] = base
+			}
+			src := c.Replace(p, text)
+			r.Begin(func() string { return fmt.Sprintf("%s %s", c.Seed, p.Path) })
+			res := vLint(src, nil)
+			r.Evaluations++
+			r.Transitions++
+			r.Validated++
+			replay := map[string]any{"seed": c.Seed, "paths": []string{p.Path}, "payload": 0, "src": src, "spans": [][]any{{p.Line, p.Col, p.Col + len(text) - 1, true, p.NPath}}}
+			if res.Panic != "" || res.Err != nil {
+				r.Violation("failure", fmt.Sprintf("%s %s: panic=%q err=%v", c.Seed, p.Path, vTrunc(res.Panic, 300), res.Err), replay)
+				continue
+			}
+			found := false
+			for _, d := range vDiags(res.Errs) {
+				// a diagnostic the unchanged file already has at this place does not count
+				if d.Line == p.Line && d.Col >= p.Col && d.Col <= p.Col+len(text)-1 && !base[fmt.Sprintf("%d:%d:%s", d.Line, d.Col, d.Msg)] {
+					found = true
+				}
+			}
+			if !found {
+				r.Violation("corpus-unchecked:"+p.NPath, fmt.Sprintf("%s: placeholder %s at %s (line %d col %d) is not reported at all; diagnostics: %v", c.Seed, c03Payloads[0].text, p.Path, p.Line, p.Col, vTrunc(fmt.Sprint(vDiagStrings(res.Errs)), 300)), replay)
+			}
+			r.Class("corpus position", true)
+		}
+	}
 	if !vThorough() {
 		return
 	}
